@@ -78,26 +78,31 @@ pub struct Variant {
     /// call every scalar setter twice: first with another (legal or illegal) value, then with the configured
     /// one - a repeated setter keeps the last value
     pub reset: bool,
+    /// hand owned containers (`String`, `Vec<u8>`) to the plain setters that take `impl Into<Cow<..>>`
+    /// (`reason`, `native_data`, `SdesItemBuilder::new`, `prefix`) instead of borrowed slices
+    pub cow: bool,
 }
 
 impl Variant {
-    pub const PLAIN: Variant = Variant { owned: false, wrap: Wrap::None, probe: false, reset: false };
-    pub const PROBED: Variant = Variant { owned: false, wrap: Wrap::None, probe: true, reset: false };
-    pub const RESET: Variant = Variant { owned: false, wrap: Wrap::None, probe: false, reset: true };
+    pub const PLAIN: Variant = Variant { owned: false, wrap: Wrap::None, probe: false, reset: false, cow: false };
+    pub const PROBED: Variant = Variant { owned: false, wrap: Wrap::None, probe: true, reset: false, cow: false };
+    pub const RESET: Variant = Variant { owned: false, wrap: Wrap::None, probe: false, reset: true, cow: false };
+    pub const COW: Variant = Variant { owned: false, wrap: Wrap::None, probe: false, reset: false, cow: true };
     pub fn new(owned: bool, wrap: Wrap) -> Variant {
-        Variant { owned, wrap, probe: false, reset: false }
+        Variant { owned, wrap, probe: false, reset: false, cow: false }
     }
     /// the eight unprobed flavours, the two probed ones (borrowed / owned, bare builder) and the re-set one
     pub fn all() -> Vec<Variant> {
         let mut v = Vec::new();
         for owned in [false, true] {
             for wrap in WRAPS {
-                v.push(Variant { owned, wrap, probe: false, reset: false });
+                v.push(Variant { owned, wrap, probe: false, reset: false, cow: false });
             }
         }
-        v.push(Variant { owned: false, wrap: Wrap::None, probe: true, reset: false });
-        v.push(Variant { owned: true, wrap: Wrap::None, probe: true, reset: false });
-        v.push(Variant { owned: false, wrap: Wrap::None, probe: false, reset: true });
+        v.push(Variant { owned: false, wrap: Wrap::None, probe: true, reset: false, cow: false });
+        v.push(Variant { owned: true, wrap: Wrap::None, probe: true, reset: false, cow: false });
+        v.push(Variant { owned: false, wrap: Wrap::None, probe: false, reset: true, cow: false });
+        v.push(Variant::COW);
         v
     }
     /// every combination owned x wrap x probe (16), then four with every scalar setter called twice
@@ -106,14 +111,18 @@ impl Variant {
         for probe in [false, true] {
             for owned in [false, true] {
                 for wrap in WRAPS {
-                    v.push(Variant { owned, wrap, probe, reset: false });
+                    v.push(Variant { owned, wrap, probe, reset: false, cow: false });
                 }
             }
         }
         for owned in [false, true] {
             for (wrap, probe) in [(Wrap::None, false), (Wrap::Compound1, true)] {
-                v.push(Variant { owned, wrap, probe, reset: true });
+                v.push(Variant { owned, wrap, probe, reset: true, cow: false });
             }
+        }
+        // owned containers handed to the plain setters: bare / wrapped, plain / probed
+        for (wrap, probe) in [(Wrap::None, false), (Wrap::Packet, false), (Wrap::Compound1, true)] {
+            v.push(Variant { owned: false, wrap, probe, reset: false, cow: true });
         }
         v
     }
@@ -220,6 +229,19 @@ pub fn chunk_builder<'a>(c: &'a Chunk, owned: bool) -> SdesChunkBuilder<'a> {
         } else {
             cb = cb.add_item(item_builder(it, false));
         }
+    }
+    cb
+}
+
+/// items made with owned strings / vectors handed to `SdesItemBuilder::new` and `prefix`
+pub fn chunk_builder_cow(c: &Chunk) -> SdesChunkBuilder<'static> {
+    let mut cb = SdesChunk::builder(c.ssrc);
+    for it in &c.items {
+        let mut b = SdesItemBuilder::new(it.ty, as_str(&it.value).to_string());
+        if !it.prefix.is_empty() {
+            b = b.prefix(it.prefix.clone());
+        }
+        cb = cb.add_item(b);
     }
     cb
 }
@@ -349,7 +371,7 @@ pub fn with_writer(p: &Pkt, var: Variant, f: &mut dyn FnMut(&dyn RtcpPacketWrite
             let mut b = pr(b.padding(*pad), on);
             for (i, c) in chunks.iter().enumerate() {
                 let on = on && probe_at(i, chunks.len());
-                b = pr(b.add_chunk(chunk_builder_p(c, var.owned, on)), on);
+                b = pr(b.add_chunk(if var.cow { chunk_builder_cow(c) } else { chunk_builder_p(c, var.owned, on) }), on);
             }
             finish(b, wrap, f)
         }
@@ -367,7 +389,7 @@ pub fn with_writer(p: &Pkt, var: Variant, f: &mut dyn FnMut(&dyn RtcpPacketWrite
                 finish(b, wrap, f)
             } else {
                 if !reason.is_empty() {
-                    b = pr(b.reason(reason.as_str()), on);
+                    b = pr(if var.cow { b.reason(reason.clone()) } else { b.reason(reason.as_str()) }, on);
                 }
                 finish(b, wrap, f)
             }
@@ -443,7 +465,7 @@ pub fn with_writer(p: &Pkt, var: Variant, f: &mut dyn FnMut(&dyn RtcpPacketWrite
                         if rs {
                             r = ch!(on; r, .native_data(&[0xEEu8, 0xEE, 0xEE][..], 9), .payload_type(pt.wrapping_add(77)));
                         }
-                        let fb = ch!(on; r, .payload_type(*pt), .native_data(&data[..], *overrun));
+                        let fb = if var.cow { ch!(on; r, .payload_type(*pt), .native_data(data.clone(), *overrun)) } else { ch!(on; r, .payload_type(*pt), .native_data(&data[..], *overrun)) };
                         fbb!(builder, &fb)
                     }
                     Fci::Pli => {
